@@ -1074,7 +1074,18 @@ def behaviour_check_multi(ctx, label, cases, variants, transform, *, entry='kern
                 if nw[0] == 'ok' and nw[1][k] is not None:
                     new_ix[(idx, k, v)] = want(idx, k, nw[1][k])
     stats['tlc_evaluations'] = len(tcases)
+    # binding self-check: a corrupted copy of the first observation must be rejected by the trace spec
+    probe = None
+    if tcases and label != 'shrink' and tcases[0]['observed']:
+        bad_case = copy.deepcopy(tcases[0])
+        bad_case['observed'][0][1] += 1
+        probe = len(tcases)
+        tcases.append(bad_case)
     verdicts = ctx.validate('Trace_FMachine', 'Trace_ExprEquiv', tcases, timeout=3000, per_shard_min=8) if tcases else {}
+    if probe is not None and verdicts[0][0] and verdicts[probe][0]:
+        raise MachineryError('trace spec accepted a corrupted observation (binding self-check)')
+    if probe is not None:
+        ctx.cover['corrupted_observation_rejected'] = bool(verdicts[0][0] and not verdicts[probe][0])
     legal = {}
     for (idx, k), i in pre_ix.items():
         ok, clause, _ = verdicts[i]
@@ -1293,3 +1304,102 @@ def transform_c38(variant, text, prog, workdir):
     if pad:
         srcs = [(n, pad_stack(t)) for n, t in srcs]
     return srcs
+
+
+# ============================================================================================ fixed corpus
+def _driver(nm, sizes, kernels, flag=False):
+    """Driver-role `kernel` over q, t (klon, klev, nb) and s (klon, nb) calling the given kernel units once per block."""
+    klon, klev, nb = sizes
+    K, L, B = V(nm['klon']), V(nm['klev']), V(nm['nb'])
+    dargs = [nm['klon'], nm['klev'], nm['nb'], nm['start'], nm['end']]
+    ddecls = [decl(a, 'int', 'in') for a in dargs]
+
+    def field(name, rank):
+        d = xdecl(name, 'real', 'inout', [(None, K), (None, L), (None, B)] if rank == 3 else [(None, K), (None, B)])
+        d['dims'] = [[1, klon], [1, klev], [1, nb]] if rank == 3 else [[1, klon], [1, nb]]
+        return d
+    ddecls += [field('q', 3), field('t', 3), field('s', 2), decl(nm['ibl'], 'int')]
+    dargs += ['q', 't', 's']
+    ibl = V(nm['ibl'])
+    amap = {'pq': el('q', rng_(), rng_(), ibl), 'pt': el('t', rng_(), rng_(), ibl), 'ps': el('s', rng_(), ibl)}
+    body = [callst(ku['name'], *[copy.deepcopy(amap[a]) if a in amap else V(a) for a in ku['args']]) for ku in kernels]
+    return unit('kernel', dargs, ddecls, [do(nm['ibl'], N(1), B, body)])
+
+
+def _kernel(nm, name, temps, body, fields=('pq', 'pt', 'ps')):
+    K, L = V(nm['klon']), V(nm['klev'])
+    args = [nm['start'], nm['end'], nm['klon'], nm['klev']] + list(fields)
+    decls = [decl(a, 'int', 'in') for a in args[:4]]
+    for f_ in fields:
+        decls.append(xdecl(f_, 'real', 'inout', [(None, K)] if f_ == 'ps' else [(None, K), (None, L)]))
+    decls += temps + [decl(nm['jl'], 'int'), decl(nm['jk'], 'int')]
+    return unit(name, args, decls, body)
+
+
+def _level_kernel(nm):
+    K = V(nm['klon'])
+    jl = V(nm['jl'])
+    return unit('n2', [nm['start'], nm['end'], nm['klon'], 'pp', 'pr'],
+                [decl(nm['start'], 'int', 'in'), decl(nm['end'], 'int', 'in'), decl(nm['klon'], 'int', 'in'),
+                 xdecl('pp', 'real', 'in', [(None, K)]), xdecl('pr', 'real', 'inout', [(None, K)]), decl(nm['jl'], 'int')],
+                [do(nm['jl'], V(nm['start']), V(nm['end']), [assign(el('pr', jl), add(el('pr', jl), el('pp', jl)))])])
+
+
+def _inner_kernel(nm):
+    """n1(start, end, klon, klev, px, py) with one (klon, klev) temporary."""
+    K, L = V(nm['klon']), V(nm['klev'])
+    jl, jk = V(nm['jl']), V(nm['jk'])
+    hl = lambda ss: do(nm['jk'], N(1), L, [do(nm['jl'], V(nm['start']), V(nm['end']), ss)])
+    return unit('n1', [nm['start'], nm['end'], nm['klon'], nm['klev'], 'px', 'py'],
+                [decl(a, 'int', 'in') for a in (nm['start'], nm['end'], nm['klon'], nm['klev'])] +
+                [xdecl('px', 'real', 'in', [(None, K), (None, L)]), xdecl('py', 'real', 'inout', [(None, K), (None, L)]),
+                 xdecl('nw', 'real', 'local', [(None, K), (None, L)]), decl(nm['jl'], 'int'), decl(nm['jk'], 'int')],
+                [hl([assign(el('nw', jl, jk), op('prod', el('px', jl, jk), R(1, 2)))]),
+                 hl([assign(el('py', jl, jk), add(el('py', jl, jk), el('nw', jl, jk)))])])
+
+
+def corpus(which, rng):
+    """Small hand-written call trees that exercise one construct each (always part of the run, both tiers)."""
+    out = []
+    for names in ('alt',):
+        nm = NAMES[names]
+        K, L = V(nm['klon']), V(nm['klev'])
+        jl, jk = V(nm['jl']), V(nm['jk'])
+        st, en = V(nm['start']), V(nm['end'])
+        sizes = [3, 3, 2]
+        progs = []
+        if which == 'C37':
+            # (a) 1-d temporary carried over vertical iterations, nested level kernel called inside the vertical loop
+            body = [do(nm['jk'], N(1), L, [
+                do(nm['jl'], st, en, [if_(cmp_('>', jk, N(1)), [assign(el('pt', jl, jk), add(el('pt', jl, jk), el('ztmp', jl)))]),
+                                      assign(el('ztmp', jl), op('prod', el('pq', jl, jk), R(1, 2)))]),
+                callst('n2', st, en, K, el('pq', rng_(), jk), el('pt', rng_(), jk))])]
+            k1 = _kernel(nm, 'k1', [xdecl('ztmp', 'real', 'local', [(None, K)])], body)
+            progs.append(('carry', [k1, _level_kernel(nm)]))
+            # (b) demotable temporaries, vector notation, a (klon, klev) temporary that must be hoisted / stacked, nested kernel
+            body = [do(nm['jk'], N(1), L, [do(nm['jl'], st, en, [assign(el('ztmp', jl), op('prod', el('pq', jl, jk), R(2))),
+                                                                  assign(el('zbig', jl, jk), add(el('ztmp', jl), el('pt', jl, jk)))])]),
+                    callst('n1', st, en, K, L, V('zbig'), V('pq')),
+                    do(nm['jk'], N(2), L, [assign(el('pt', rng_(st, en), jk), add(el('zbig', rng_(st, en), jk), el('pq', rng_(st, en), add(jk, N(-1)))))]),
+                    do(nm['jl'], st, en, [if_(cmp_('>', el('pt', jl, N(1)), R(1)), [assign(el('ps', jl), el('zbig', jl, L))], [assign(el('ps', jl), R(1, 2))])])]
+            k1 = _kernel(nm, 'k1', [xdecl('ztmp', 'real', 'local', [(None, K)]), xdecl('zbig', 'real', 'local', [(None, K), (None, L)])], body)
+            progs.append(('basic', [k1, _inner_kernel(nm)]))
+        else:
+            # (a) nested kernel called with klev and klev-1 levels
+            body = [callst('n1', st, en, K, L, V('pq'), V('pt')), callst('n1', st, en, K, add(L, N(-1)), V('pt'), V('pq'))]
+            progs.append(('sizes', [_kernel(nm, 'k1', [], body), _inner_kernel(nm)]))
+            # (b) two temporaries of one type, the second one defined by a whole-array assignment
+            hl = lambda ss: do(nm['jk'], N(1), L, [do(nm['jl'], st, en, ss)])
+            body = [hl([assign(el('za', jl, jk), op('prod', el('pq', jl, jk), R(1, 2)))]), assign(V('zb'), R(1)),
+                    hl([assign(el('pt', jl, jk), add(el('za', jl, jk), el('zb', jl, jk)))])]
+            k1 = _kernel(nm, 'k1', [xdecl('za', 'real', 'local', [(None, K), (None, L)]), xdecl('zb', 'real', 'local', [(None, K), (None, L)])], body)
+            progs.append(('whole', [k1]))
+            # (c) kernel without temporaries of its own calling a kernel with a temporary
+            body = [hl([assign(el('pt', jl, jk), op('prod', el('pt', jl, jk), R(1, 2)))]), callst('n1', st, en, K, L, V('pq'), V('pt'))]
+            progs.append(('passthrough', [_kernel(nm, 'k1', [], body), _inner_kernel(nm)]))
+        for tag, us in progs:
+            prog = {'units': [_driver(nm, sizes, us[:1])] + us, 'renderer': 'scc', 'names': names, 'sizes': sizes,
+                    'features': ['corpus-' + tag]}
+            g = GenSCC(rng, (), names)
+            out.append((prog, g.inputs(prog, 2)))
+    return out
